@@ -576,6 +576,18 @@ def w_labellers(ctx, rng, i):
         ctx.fail("labeller_output_contains_a_point_that_is_not_an_input_point", cls=name, mech=kind)
     elif len(set(idx)) != len(idx):
         ctx.fail("labeller_output_repeats_an_input_point", cls=name, mech=kind)
+    if hasattr(out, "trilist"):
+        # the mesh-flavoured labellers hand out a mesh of the points they return: every triangle indexes those points, every
+        # point is used, and the mesh answers its queries
+        tl_ = np.asarray(out.trilist)
+        ctx.tap("trimesh_labellers_give_valid_meshes", "calls"); ctx.tap("trimesh_labellers_give_valid_meshes", "checked")
+        if tl_.size and (int(tl_.max()) >= out.n_points or int(tl_.min()) < 0):
+            ctx.fail("labeller_output_mesh_indexes_points_it_does_not_have", cls=name, mech=kind, n_points=int(out.n_points), max_index=int(tl_.max()))
+        else:
+            try:
+                out.tri_areas() if d == 2 else None
+            except Exception as e_:
+                ctx.fail("labeller_output_mesh_indexes_points_it_does_not_have", cls=name, mech=kind + ":" + type(e_).__name__)
     if hasattr(out, "_labels_to_masks"):
         cover = np.zeros(out.n_points, dtype=bool)
         for m_ in out._labels_to_masks.values():
